@@ -123,3 +123,14 @@ MUTANTS["C12"] = [
     ("fit_ignores_normalize", "lentil/zernike.py", "    basis = zernike_basis(mask, modes, True, normalize, rho, theta)\n\n    basis = np.linalg.pinv(basis)", "    basis = zernike_basis(mask, modes, True, True, rho, theta)\n\n    basis = np.linalg.pinv(basis)"),
     ("basis_custom_theta_dropped", "lentil/zernike.py", "        basis[index] = zernike(mask, mode, normalize, rho, theta)", "        basis[index] = zernike(mask, mode, normalize, rho, theta if rho is None else np.abs(theta))"),
 ]
+MUTANTS["C13"] = [
+    ("sampling_max", "lentil/radiometry.py", "                dwave = np.append(dwave, np.diff(w).min())\n\n            return dwave.min()", "                dwave = np.append(dwave, np.diff(w).min())\n\n            return dwave.max()"),
+    ("fill_wrong_operand", "lentil/radiometry.py", "    s2_value = np.where(commonwave < s2.wave.min(), fill_below, fill_above).astype(float)", "    s2_value = np.where(commonwave < s1.wave.min(), fill_below, fill_above).astype(float)"),
+    ("num_without_plus1", "lentil/radiometry.py", "    commonwave = np.linspace(minwave, maxwave, num + 1)", "    commonwave = np.linspace(minwave, maxwave, max(num, 2))"),
+    ("s1_on_s2_wave", "lentil/radiometry.py", "    s1_samplevalue = s1.sample(s1_wave, method=method", "    s1_samplevalue = s1.sample(s1_wave[::-1][::-1] * (1 + 1e-7), method=method"),
+    ("sample_mutates", "lentil/radiometry.py", "            spectrum = self.copy()\n            spectrum.to(waveunit)\n\n        # a two-element", "            spectrum = self\n            spectrum.to(waveunit)\n\n        # a two-element"),
+    ("interp_unit_default", "lentil/radiometry.py", "    s2_samplevalue = s2.sample(s2_wave, method=method, fill_value=fill_value,\n                               waveunit=s2.waveunit)", "    s2_samplevalue = s2.sample(s2_wave, method=method, fill_value=fill_value)"),
+    ("right_sampling_uses_left", "lentil/radiometry.py", "        return _sampling(wave[1], method='min')", "        return _sampling(wave[0], method='min')"),
+    ("result_unit_other", "lentil/radiometry.py", "        return Spectrum(wave, value, self.waveunit, self.valueunit)", "        return Spectrum(wave, value, other.waveunit if isinstance(other, Spectrum) else self.waveunit, self.valueunit)"),
+    ("method_ignored", "lentil/radiometry.py", "        interp = scipy.interpolate.interp1d(spectrum.wave, spectrum.value, kind=method,", "        interp = scipy.interpolate.interp1d(spectrum.wave, spectrum.value, kind='linear',"),
+]
